@@ -54,13 +54,15 @@ def snapshot(top: str) -> dict:
     return out
 
 
-HOSTILE = ["../decoy", "../decoy/inbox", "//etc", "/../decoy", "a/../../decoy", "../Mail2", "..", "/..", "../../x", "..//decoy"]
+HOSTILE = ["../decoy", "../decoy/inbox", "//etc", "/../decoy", "a/../../decoy", "../Mail2", "..", "/..", "../../x", "..//decoy",
+           # absolute paths into the jail (one leading "/" is the hierarchy prefix and must not make the path absolute)
+           "{JAIL}/decoy/inbox", "{JAIL}/decoy/newbox", "{JAIL}/outside-new"]
 
 
 class Jail(Harness):
     """No command with a hostile name touches anything outside the mail directory or reveals it."""
 
-    scope = "10 hostile names x {SELECT, EXAMINE, CREATE, DELETE, SUBSCRIBE, UNSUBSCRIBE, STATUS, APPEND, COPY, MOVE, RENAME src/dst} on a jail holding the mail root and a decoy mail root"
+    scope = "13 hostile names (.., //, absolute) x {SELECT, EXAMINE, CREATE, DELETE, SUBSCRIBE, UNSUBSCRIBE, STATUS, APPEND, COPY, MOVE, RENAME src/dst} on a jail holding the mail root and a decoy mail root"
     exhaustive = False
 
     def inputs(self, tier, seed):
@@ -78,7 +80,7 @@ class Jail(Harness):
                 before = {k: v for k, v in snapshot(jail).items() if not k.startswith(str(w.maildir))}
                 a = w.session("a")
                 await a.cmd("SELECT inbox")
-                n = inp["name"]
+                n = inp["name"].replace("{JAIL}", jail)
                 outs = []
                 for cmd in (f'SELECT "{n}"', "SELECT inbox", f'EXAMINE "{n}"', "SELECT inbox", f'CREATE "{n}"', f'CREATE "{n}/sub"', f'SUBSCRIBE "{n}"', f'UNSUBSCRIBE "{n}"',
                             f'STATUS "{n}" (MESSAGES)', f'COPY 1 "{n}"', f'MOVE 1 "{n}"', f'RENAME work "{n}"', f'RENAME "{n}" taken', f'DELETE "{n}"',
